@@ -9,17 +9,22 @@ import (
 
 	"verif/bftsim"
 	"verif/nodesim"
+	"verif/p2psim"
 	"verif/simkit"
 )
 
 func runC19(c *simkit.Ctx) {
-	if c.T.Chance(1, 2) {
+	switch c.T.Pick(2, 2, 1) {
+	case 0:
 		c.Probe("engine_bftsim")
 		bftsim.RunSafety(c)
-		return
+	case 1:
+		c.Probe("engine_nodesim")
+		nodesim.RunChain(c)
+	default:
+		c.Probe("engine_p2psim")
+		p2psim.RunGarbage(c)
 	}
-	c.Probe("engine_nodesim")
-	nodesim.RunChain(c)
 }
 
 // C14: evidence soundness is decided on the consensus engine (what did each correct replica really
